@@ -156,6 +156,19 @@ for _nm in BAD_TYPE_NAMES[:10]:
     if all(ch.isalnum() for ch in _nm):
         NAME_RULES.append(("name:type-parameter:%s" % _nm, True, "%s: !record\n  fields:\n    a: %s\n" % (json.dumps("G1<%s>" % _nm, ensure_ascii=False), json.dumps(_nm, ensure_ascii=False))))
 
+# subscripts in computed fields: an index that is not an integer (a string / float literal, a string / float / bool / record field) in every
+# index position of every kind of container (vector, fixed vector, arrays without dimensions, with a rank, with named and with fixed dimensions)
+_CONT = {"vec": ("int*", 1), "fvec": ("int*3", 1), "dyn": ("'int[]'", 1), "dyn2": ("'int[]'", 2), "rank2": ("'int[,]'", 2), "named": ("'int[x, y]'", 2), "fixed": ("'int[2, 3]'", 2), "rank1": ("'int[x]'", 1),
+         "expanded": ("!array\n      items: int", 1), "vecvec": ("int**", 1)}
+_BADIDX = {"str-literal": '"k"', "float-literal": "1.5", "string-field": "label", "float-field": "scale", "bool-field": "flag", "record-field": "other", "vector-field": "ids"}
+for _cn, (_ct, _ar) in _CONT.items():
+    for _bn, _bx in _BADIDX.items():
+        for _posn in range(_ar):
+            _args = ", ".join(_bx if _q == _posn else "0" for _q in range(_ar))
+            NAME_RULES.append(("index:%s:%s:%d" % (_cn, _bn, _posn), True,
+                               "Oth1: !record\n  fields:\n    z: int\nR1: !record\n  fields:\n    c: %s\n    label: string\n    scale: float\n    flag: bool\n    other: Oth1\n    ids: int*\n"
+                               "  computedFields:\n    picked: '%s'\n" % (_ct, "c[%s]" % _args)))
+
 POSITIONS = ["alias", "field", "genarg", "vecitem", "mapvalue", "unioncase", "optional", "step", "streamitem", "aliaschain", "arrayitem",
              "untaggedcase", "untaggedopt", "untaggedinvec"]
 
